@@ -30,7 +30,7 @@ try:
         e = tempfile.mkdtemp(prefix='seedev_', dir='/tmp')
         c = sh('./check %s --tier quick' % p, cwd=V, env=dict(os.environ, VERIF_REPO=d, VERIF_EVIDENCE_DIR=e, VERIF_REPLAY_DIR=e), timeout=3000)
         kinds = sorted(set(re.findall(r'kind=(\S+)', c.stdout)))
-        caught[p] = {'exit': c.returncode, 'kinds': kinds[:6]}
+        caught[p] = {'exit': c.returncode if ('VIOLATION property=' in c.stdout or c.returncode != 1) else 3, 'kinds': kinds[:6]}
         shutil.rmtree(e, ignore_errors=True)
     res['checks'] = caught
 finally:
